@@ -57,8 +57,37 @@ func (s schema) Coq() string {
 		return "(SStruct [" + strings.Join(fs, "; ") + "])"
 	case "point":
 		return "SPoint"
+	case "listi":
+		return "(SListI " + s.Elem.Coq() + ")"
+	case "tagbytes":
+		return "STagBytes"
+	case "bytesn":
+		return fmt.Sprintf("(SBytesN %d)", s.Bits)
+	case "tagany":
+		return "STagAny"
+	case "any":
+		return "SAny"
+	case "mapu", "mapui":
+		return fmt.Sprintf("(SMapU %v %d %s)", s.K == "mapui", s.Bits, s.Elem.Coq())
+	case "peer":
+		return "SPeer"
 	}
 	return "SOpaque"
+}
+
+func (s schema) hasKind(k string) bool {
+	if s.K == k {
+		return true
+	}
+	if s.Elem != nil && s.Elem.hasKind(k) {
+		return true
+	}
+	for _, f := range s.Fields {
+		if f.hasKind(k) {
+			return true
+		}
+	}
+	return false
 }
 
 func (s schema) hasOpaque() bool {
@@ -142,12 +171,69 @@ func structFields(t reflect.Type) (fields []reflect.StructField, toArray bool, o
 	return
 }
 
+// patch replaces the schema of the named field of a struct schema
+func patch(t reflect.Type, s schema, field string, f func(schema) schema) schema {
+	fs, _, _ := structFields(t)
+	for i, sf := range fs {
+		if sf.Name == field {
+			s.Fields[i] = f(s.Fields[i])
+		}
+	}
+	return s
+}
+
+func toListI(s schema) schema    { s.K = "listi"; return s }
+func toTagBytes(s schema) schema { return schema{K: "tagbytes"} }
+func toMapI(s schema) schema     { s.K = "mapui"; return s }
+
+// overrides: hand models of types with a hand-written codec.  Marshal-only
+// types are still DECODED by reflection over their fields, so the schema is
+// the reflected one with the encoder's choices patched in (indefinite list,
+// tag 24 around bytes, indefinite map); every override is validated by the
+// encoder cases (TE) and the decoder cases (TD) of the correspondence.
+var overrides map[string]func(t reflect.Type) schema
+
+func init() {
+	overrides = map[string]func(t reflect.Type) schema{
+		"txsubmission.MsgReplyTxIds":    func(t reflect.Type) schema { return patch(t, structSchema(t), "TxIds", toListI) },
+		"txsubmission.MsgRequestTxs":    func(t reflect.Type) schema { return patch(t, structSchema(t), "TxIds", toListI) },
+		"txsubmission.MsgReplyTxs":      func(t reflect.Type) schema { return patch(t, structSchema(t), "Txs", toListI) },
+		"txsubmission.TxBody":           func(t reflect.Type) schema { return patch(t, structSchema(t), "TxBody", toTagBytes) },
+		"blockfetch.MsgBlock":           func(t reflect.Type) schema { return patch(t, structSchema(t), "WrappedBlock", toTagBytes) },
+		"leiosfetch.MsgBlockTxsRequest": func(t reflect.Type) schema { return patch(t, structSchema(t), "Bitmaps", toMapI) },
+		"peersharing.PeerAddress":       func(t reflect.Type) schema { return schema{K: "peer"} },
+	}
+}
+
+func structSchema(t reflect.Type) schema {
+	fs, toArray, odd := structFields(t)
+	if !toArray {
+		return schema{K: "opaque", Why: "struct encoded as map " + t.String()}
+	}
+	if odd != "" {
+		return schema{K: "opaque", Why: odd + " in " + t.String()}
+	}
+	s := schema{K: "struct"}
+	for _, f := range fs {
+		s.Fields = append(s.Fields, schemaOf(f.Type))
+	}
+	return s
+}
+
+var tagT = reflect.TypeOf(cbor.Tag{})
+
 func schemaOf(t reflect.Type) schema {
 	if t == pointT {
 		return schema{K: "point"}
 	}
 	if t == rawT {
 		return schema{K: "raw"}
+	}
+	if t == tagT {
+		return schema{K: "tagany"}
+	}
+	if ov, ok := overrides[t.String()]; ok {
+		return ov(t)
 	}
 	if custom(t) {
 		return schema{K: "opaque", Why: "custom codec " + t.String()}
@@ -172,18 +258,21 @@ func schemaOf(t reflect.Type) schema {
 		e := schemaOf(t.Elem())
 		return schema{K: "list", Elem: &e}
 	case reflect.Struct:
-		fs, toArray, odd := structFields(t)
-		if !toArray {
-			return schema{K: "opaque", Why: "struct encoded as map " + t.String()}
+		return structSchema(t)
+	case reflect.Array:
+		if t.Elem().Kind() == reflect.Uint8 {
+			return schema{K: "bytesn", Bits: t.Len()}
 		}
-		if odd != "" {
-			return schema{K: "opaque", Why: odd + " in " + t.String()}
+	case reflect.Interface:
+		if t.NumMethod() == 0 {
+			return schema{K: "any"}
 		}
-		s := schema{K: "struct"}
-		for _, f := range fs {
-			s.Fields = append(s.Fields, schemaOf(f.Type))
+	case reflect.Map:
+		bits := map[reflect.Kind]int{reflect.Uint8: 8, reflect.Uint16: 16, reflect.Uint32: 32, reflect.Uint64: 64, reflect.Uint: 64}[t.Key().Kind()]
+		if bits != 0 {
+			e := schemaOf(t.Elem())
+			return schema{K: "mapu", Bits: bits, Elem: &e}
 		}
-		return s
 	}
 	return schema{K: "opaque", Why: t.Kind().String() + " " + t.String()}
 }
